@@ -15,7 +15,8 @@ RULE = ("byte strings of every length 0..600 and sampled up to 70000 over byte c
         "parse_user_data, trace, hlog, m2c00, oe500) checks each call: one line per started line, equal widths, offset prefix, "
         "the chunk's hex digits in order, no control characters, and for the default layout parse(hexdump(d)) == d with the "
         "repository's parse and with an independent parser.  parse() is also driven with independent renderings of both "
-        "I/O-drawer formats (aligned and stripped short last lines of every length 1..15, lower case, comment/blank lines).  "
+        "I/O-drawer formats (aligned and stripped short last lines of every length 1..15, lower case, comment/blank lines, "
+        "free text starting with one hex digit, near-miss lines: damaged address digit / separator / one-digit first byte).  "
         "peltool -x output is parsed back to the files' bytes.  Non-trivial: len >= 1; distinct = (bytes, layout).")
 ASSUMPTIONS = ["comment lines never begin with a complete byte of a dump line (two hex digits at the first data position); a lone "
                "hex digit next to a blank, sign or tab there is no byte and the line contributes nothing",
